@@ -3,6 +3,7 @@ package main
 import (
 	"fmt"
 	"go/ast"
+	"go/token"
 	"path/filepath"
 	"regexp"
 	"sort"
@@ -209,6 +210,118 @@ func canonLocals(fd *ast.FuncDecl, bd *bindings) {
 	}
 }
 
+// negateCond: the logical negation of a condition, in the spelling the templates use (`a != b` ->
+// `a == b`, `a > 0` for a length -> `a == 0`, `!x` -> `x`, `x` -> `!x`).
+func negateCond(e ast.Expr) ast.Expr {
+	switch x := e.(type) {
+	case *ast.ParenExpr:
+		return negateCond(x.X)
+	case *ast.UnaryExpr:
+		if x.Op == token.NOT {
+			return x.X
+		}
+	case *ast.BinaryExpr:
+		switch x.Op {
+		case token.NEQ:
+			return &ast.BinaryExpr{X: x.X, Op: token.EQL, Y: x.Y}
+		case token.EQL:
+			return &ast.BinaryExpr{X: x.X, Op: token.NEQ, Y: x.Y}
+		case token.GTR:
+			if bl, ok := x.Y.(*ast.BasicLit); ok && bl.Value == "0" {
+				if ce, ok := x.X.(*ast.CallExpr); ok {
+					if id, ok := ce.Fun.(*ast.Ident); ok && id.Name == "len" {
+						return &ast.BinaryExpr{X: x.X, Op: token.EQL, Y: x.Y}
+					}
+				}
+			}
+		}
+	}
+	return &ast.UnaryExpr{Op: token.NOT, X: e}
+}
+
+// canonSwitch rewrites the body of a `for` loop that dispatches on one expression — either
+// `switch E { case A: … default: … }` or `[t := E;] if t == A { … } else if t == B { … } else { … }` —
+// into a switch on E whose clauses are ordered: the BytesType clause first, the other cases in source
+// order, default last. The loop statement is modified in place.
+func canonSwitch(loop *ast.ForStmt) {
+	body := loop.Body.List
+	var tag ast.Expr
+	var clauses []ast.Stmt
+	switch {
+	case len(body) == 1:
+		if sw, ok := body[0].(*ast.SwitchStmt); ok && sw.Init == nil && sw.Tag != nil {
+			tag, clauses = sw.Tag, sw.Body.List
+		} else if is, ok := body[0].(*ast.IfStmt); ok {
+			tag, clauses = ifChain(is, nil)
+		}
+	case len(body) == 2:
+		// t := E; if t == … (t used nowhere else)
+		as, ok1 := body[0].(*ast.AssignStmt)
+		is, ok2 := body[1].(*ast.IfStmt)
+		if ok1 && ok2 && as.Tok == token.DEFINE && len(as.Lhs) == 1 && len(as.Rhs) == 1 {
+			if id, ok := as.Lhs[0].(*ast.Ident); ok {
+				t, cl := ifChain(is, id)
+				if t != nil {
+					tag, clauses = as.Rhs[0], cl
+				}
+			}
+		}
+	}
+	if tag == nil || len(clauses) == 0 {
+		return
+	}
+	var first, mid, last []ast.Stmt
+	for _, c := range clauses {
+		cc := c.(*ast.CaseClause)
+		switch {
+		case cc.List == nil:
+			last = append(last, c)
+		case len(cc.List) == 1 && exprString(cc.List[0]) == "protowire.BytesType":
+			first = append(first, c)
+		default:
+			mid = append(mid, c)
+		}
+	}
+	ordered := append(append(first, mid...), last...)
+	loop.Body.List = []ast.Stmt{&ast.SwitchStmt{Tag: tag, Body: &ast.BlockStmt{List: ordered}}}
+}
+
+// ifChain: `if T == A {…} else if T == B {…} else {…}` as case clauses; with `local` given, T must be
+// that identifier. Returns a nil tag when the statement is not such a chain.
+func ifChain(is *ast.IfStmt, local *ast.Ident) (ast.Expr, []ast.Stmt) {
+	var tag ast.Expr
+	var clauses []ast.Stmt
+	for cur := is; cur != nil; {
+		be, ok := cur.Cond.(*ast.BinaryExpr)
+		if !ok || be.Op != token.EQL || cur.Init != nil {
+			return nil, nil
+		}
+		if tag == nil {
+			tag = be.X
+		} else if exprString(tag) != exprString(be.X) {
+			return nil, nil
+		}
+		if local != nil {
+			if id, ok := be.X.(*ast.Ident); !ok || id.Name != local.Name {
+				return nil, nil
+			}
+		}
+		clauses = append(clauses, &ast.CaseClause{List: []ast.Expr{be.Y}, Body: cur.Body.List})
+		switch e := cur.Else.(type) {
+		case nil:
+			cur = nil
+		case *ast.IfStmt:
+			cur = e
+		case *ast.BlockStmt:
+			clauses = append(clauses, &ast.CaseClause{Body: e.List})
+			cur = nil
+		default:
+			return nil, nil
+		}
+	}
+	return tag, clauses
+}
+
 func genCoderTable(repo string, tr *translator, exprs *strings.Builder, note func(string, ...interface{})) string {
 	var b strings.Builder
 	b.WriteString("import PicoModel.TableTypes\n/- GENERATED by tools/harness/cmd/facts from encoder_types.go and decoder_types.go; do not edit. -/\nnamespace Pico.Gen\nopen Pico\n\n")
@@ -272,6 +385,13 @@ func genCoderTable(repo string, tr *translator, exprs *strings.Builder, note fun
 			normaliseSig(fd, "enc")
 			stmts := fd.Body.List
 			guard := ""
+			// `if !G { body }` as the whole method is the same as `if G { return }; body`
+			if len(stmts) == 1 {
+				if is, ok := stmts[0].(*ast.IfStmt); ok && is.Init == nil && is.Else == nil {
+					ret := &ast.IfStmt{Cond: negateCond(is.Cond), Body: &ast.BlockStmt{List: []ast.Stmt{&ast.ReturnStmt{}}}}
+					stmts = append([]ast.Stmt{ret}, is.Body.List...)
+				}
+			}
 			if len(stmts) > 0 {
 				gb := newBindings()
 				if matchStmts(parseTemplate(tGuard), stmts[:1], gb) {
@@ -346,6 +466,11 @@ func genCoderTable(repo string, tr *translator, exprs *strings.Builder, note fun
 		if ok {
 			elem, _ := elemType(fd)
 			normaliseSig(fd, "dec")
+			if len(fd.Body.List) == 1 {
+				if loop, ok := fd.Body.List[0].(*ast.ForStmt); ok {
+					canonSwitch(loop)
+				}
+			}
 			type cand struct {
 				tmpl, shape string
 			}
